@@ -199,7 +199,11 @@ mod h {
             }
         };
     }
-    const NS: usize = 4;
+    /// number of symbolic coefficients (compile-time, from the environment of the check driver)
+    const NS: usize = match option_env!("VERIF_NSYM") {
+        Some(s) => (s.as_bytes()[0] - b'0') as usize,
+        None => 2,
+    };
     res_getter!(c01_pressure_res, NS, |s, c| s.pressure(Contributions::Residual).to_reduced(), q!(quantity::Pressure, -dpoly(&c, ord(1, 0, 0, 0))));
     res_getter!(c01_residual_entropy, NS, |s, c| s.residual_entropy().to_reduced(), q!(quantity::Entropy, -dpoly(&c, ord(0, 1, 0, 0))));
     res_getter!(c01_dp_dv_res, NS, |s, c| s.dp_dv(Contributions::Residual).to_reduced(), -dpoly(&c, ord(2, 0, 0, 0)));
